@@ -208,7 +208,9 @@ mod ipv6_global {
     #[must_use]
     #[inline]
     const fn is_documentation(a: Ipv6Addr) -> bool {
-        (a.segments()[0] == 0x2001) && (a.segments()[1] == 0xdb8)
+        ((a.segments()[0] == 0x2001) && (a.segments()[1] == 0xdb8))
+            // `3fff::/20` (RFC 9637)
+            || ((a.segments()[0] == 0x3fff) && (a.segments()[1] <= 0x0fff))
     }
 
     /// Returns [`true`] if the address appears to be globally reachable
@@ -267,6 +269,8 @@ mod ipv6_global {
                     || matches!(a.segments(), [0x2001, b, _, _, _, _, _, _] if b >= 0x20 && b <= 0x2F)
                 ))
             || is_documentation(a)
+            // Segment Routing (SRv6) SIDs (`5f00::/16`, RFC 9602)
+            || matches!(a.segments(), [0x5f00, ..])
             || is_unique_local(a)
             || is_unicast_link_local(a))
     }
